@@ -614,9 +614,15 @@ def gen_storage_script(r, big=False, quick=True):
     return sc
 
 
-def gen_pd_script(r, big=False, quick=True):
+def gen_pd_script(r, big=False, quick=True, keyed=None):
+    """a PlannerData history ending in dump / store / load / corruption sweep.  `keyed` scripts also address vertices by
+    state (addEdge(v1, v2), removeVertex(v), removeEdge(v1, v2), markStartState, tagState, vertexIndex), add vertices after
+    removals, clear() and re-use the object, decoupleFromPlanner() in mid-history, change the caller's state objects while the
+    graph is coupled to them (aliasing), and extractStateStorage()."""
     sc = Script()
     names = Names()
+    if keyed is None:
+        keyed = r.chance(1, 2)
     while True:
         A = gen_space(r, names, allow_zero=r.chance(1, 3))
         if ser_len(A) > 0:
@@ -634,26 +640,51 @@ def gen_pd_script(r, big=False, quick=True):
         sc.add(("state %d 1 %d %s" % (i + 1, len(at), " ".join(at))).strip(), op="state", sp=A, atoms=at, regular=False)
     sc.add("pdnew 1 %s" % ("-" if cdim is None else cdim), op="pdnew", cdim=cdim)
     style = r.below(4)   # 0: ascending goals only, 1: anything, 2: many starts/goals, 3: start==goal allowed
-    nv = 0
     order = list(range(1, nst + 1))
     r.shuffle(order)
-    present = []         # sids of the vertices, by index (exact)
-    loops = set()        # vertices that may carry a self-loop: PlannerData::removeVertex deletes a self-loop's edge
-    #                      object twice (out-edge pass and in-edge pass) and crashes; that is a defect of graph
-    #                      editing, not of copying/persisting, so such removals are not generated (see notes/C09.md)
+    # the generator's own picture of the graph (only to aim the operations; the oracle keeps its own bookkeeping):
+    # per vertex the state id it points to (None once decoupled), the edge set by index
+    verts = []
+    edges = set()
+    # PlannerData::removeVertex deletes a self-loop's edge object twice (out-edge pass and in-edge pass) and crashes; that is a
+    # defect of graph editing, not of copying/persisting, so vertices carrying a self-loop are not removed (see notes/C09.md)
+    nre = len(real_addrs(A))
+    can_alias = nre > 0 and (MODE["wc"] == "fixed" or not has_wc(A))
 
     edgeless = r.chance(1, 3)      # vertices only: a truncation inside the vertex block is then the only way to fail
+
+    def idx_of(sid):
+        return verts.index(sid) if sid in verts else None
+
+    def ctrl_tail():
+        return " %d %d %s" % (fbits(r.uniform(0, 2)), cdim, " ".join(str(fbits(r.uniform(-1, 1)) if r.chance(3, 4) else rand_bits(r)) for _ in range(cdim)))
+
+    def weight():
+        return fbits(r.uniform(0, 10)) if r.chance(4, 5) else rand_bits(r)
 
     def edge(a, b):
         if edgeless:
             return
-        w = fbits(r.uniform(0, 10)) if r.chance(4, 5) else rand_bits(r)
-        line = "pde %d %d %d" % (a, b, w)
+        line = "pde %d %d %d" % (a, b, weight())
         if cdim is not None:
-            line += " %d %d %s" % (fbits(r.uniform(0, 2)), cdim, " ".join(str(fbits(r.uniform(-1, 1)) if r.chance(3, 4) else rand_bits(r)) for _ in range(cdim)))
+            line += ctrl_tail()
         sc.add(line, op="pde")
-        if a == b:
-            loops.add(a)
+        if a < len(verts) and b < len(verts):
+            edges.add((a, b))
+
+    def add_vertex(sid, ty, tag=None):
+        if tag is None:
+            tag = r.choice([0, 1, -1, 7, 2147483647, -2147483648, r.range(-1000, 1000)])
+        sc.add("pdv %d %d %s" % (sid, tag, ty), op="pdv")
+        if sid not in verts:
+            verts.append(sid)
+        return tag
+
+    def remove_index(v):
+        nonlocal edges
+        if v < len(verts):
+            del verts[v]
+            edges = {(a - (a > v), b - (b > v)) for a, b in edges if a != v and b != v}
 
     for sid in order:
         ty = "p"
@@ -664,18 +695,75 @@ def gen_pd_script(r, big=False, quick=True):
             ty = "s"
         elif x < 4:
             ty = "g"
-        tag = r.choice([0, 1, -1, 7, 2147483647, -2147483648, r.range(-1000, 1000)])
-        sc.add("pdv %d %d %s" % (sid, tag, ty), op="pdv")
-        present.append(sid)
-        nv = len(present)
+        tag = add_vertex(sid, ty)
+        nv = len(verts)
         if r.chance(1, 10):
-            sc.add("pdv %d %d %s" % (r.choice(order), tag, r.choice("psg")), op="pdv")   # same state again
+            add_vertex(r.choice(order), r.choice("psg"), tag)   # same state again (or a later one early)
+            nv = len(verts)
         for _ in range(r.below(3)):
             if nv:
                 edge(r.below(nv + (1 if r.chance(1, 8) else 0)), r.below(nv))
-    ops = r.range(0, 2 * nv + 2)
+    nv = len(verts)
+    ops = r.range(0, 2 * nv + 2) + (r.range(4, 14) if keyed else 0)
     for _ in range(ops):
+        nv = len(verts)
         x = r.below(100)
+        if keyed and r.chance(2, 3) and nst:
+            y = r.below(100)
+            sid = r.range(1, nst)
+            if y < 20 and not edgeless:
+                # addEdge(v1, v2, ...): vertices that are missing (never added, removed, or only present as decoupled clones)
+                # are added on the way
+                s2 = sid if r.chance(1, 8) else r.range(1, nst)
+                line = "pdes %d %d %d %d %d" % (sid, r.range(-9, 9), s2, r.range(-9, 9), weight())
+                if cdim is not None:
+                    line += ctrl_tail()
+                sc.add(line, op="pdes")
+                for q in (sid, s2):
+                    if q not in verts:
+                        verts.append(q)
+                edges.add((verts.index(sid), verts.index(s2)))
+            elif y < 30:
+                add_vertex(sid, r.choice("ppsg") if style != 0 else r.choice("pps"))
+            elif y < 40:
+                which = "s" if style == 0 else r.choice("sg")
+                sc.add("pdmarks %d %s" % (sid, which), op="pdmarks")
+            elif y < 47:
+                sc.add("pdtags %d %d" % (sid, r.range(-50, 50)), op="pdtags")
+            elif y < 57:
+                sc.add("pdidx %d" % sid, op="pdidx")
+            elif y < 69:
+                v = idx_of(sid)
+                if v is not None and (v, v) in edges:
+                    continue
+                sc.add("pdrmvs %d" % sid, op="pdrmvs")
+                if v is not None:
+                    remove_index(v)
+            elif y < 77:
+                s2 = r.range(1, nst)
+                a, b = idx_of(sid), idx_of(s2)
+                if cdim is not None and a is not None and b is not None and (a, b) not in edges:
+                    # control::PlannerData::removeEdge(v1, v2) casts getEdge()'s NO_EDGE to PlannerDataEdgeControl when both
+                    # vertices exist but the edge does not (out of C09's scope, see notes): not generated
+                    continue
+                sc.add("pdrmes %d %d" % (sid, s2), op="pdrmes")
+                edges.discard((a, b))
+            elif y < 85 and can_alias:
+                # the caller changes a state object: a vertex that still points to it must show the new value, a decoupled
+                # one (and everything loaded from an archive) must not
+                rs = [rand_bits(r) for _ in range(nre)]
+                sc.add(("fromreals %d %d %s" % (sid, nre, " ".join(map(str, rs)))).strip(), op="fromreals", sid=sid, reals=rs)
+            elif y < 91:
+                sc.add("pddecouple", op="pddecouple")
+                verts[:] = [None] * len(verts)
+            elif y < 95:
+                sc.add("pddump", op="pddump")
+                sc.add("pdextract %d" % r.below(1 << 30), op="pdextract")
+            elif y < 100 and r.chance(1, 2):
+                sc.add("pdclear", op="pdclear")
+                del verts[:]
+                edges.clear()
+            continue
         if x < 40 and nv:
             a, b = r.below(nv), r.below(nv)
             if r.chance(1, 6):
@@ -692,15 +780,14 @@ def gen_pd_script(r, big=False, quick=True):
             sc.add("pdtag %d %d" % (r.below(nv + 1), r.range(-50, 50)), op="pdtag")
         elif x < 80 and nv:
             v = r.below(nv + 1)
-            if v in loops:
+            if (v, v) in edges:
                 continue
             sc.add("pdrmv %d" % v, op="pdrmv")
-            if v < nv:
-                del present[v]
-                loops = {u - (u > v) for u in loops if u != v}
-                nv = len(present)
+            remove_index(v)
         elif x < 90 and nv:
-            sc.add("pdrme %d %d" % (r.below(nv + 1), r.below(nv + 1)), op="pdrme")
+            a, b = r.below(nv + 1), r.below(nv + 1)
+            sc.add("pdrme %d %d" % (a, b), op="pdrme")
+            edges.discard((a, b))
         elif style == 3 and nv:
             v = r.below(nv)
             sc.add("pdmark %d s" % v, op="pdmark")
@@ -708,6 +795,8 @@ def gen_pd_script(r, big=False, quick=True):
     if r.chance(1, 2):
         sc.add("pdcross", op="pdcross")
     sc.add("pddump", op="pddump")
+    if keyed or r.chance(1, 4):
+        sc.add("pdextract %d" % r.below(1 << 30), op="pdextract")
     sc.add("pdstore 2 %d" % r.below(1 << 30), op="pdstore", sp=A, sp2=B)
     if r.chance(1, 2):
         sc.add("pdreload", op="pdreload")
@@ -719,6 +808,12 @@ def gen_pd_script(r, big=False, quick=True):
         toks = ["r%d" % cdim] + toks[:r.range(2, 4)]
         r.shuffle(toks)
         sc.add("pdctl 2 %d %s" % (len(toks), " ".join(toks)), op="pdctl", toks=toks, cdim=cdim, sp=A, sp2=B)
+    if keyed and can_alias and nst and r.chance(1, 2):
+        # after the store: change a state object and dump again (the in-memory graph follows if still coupled)
+        sid = r.range(1, nst)
+        rs = [rand_bits(r) for _ in range(nre)]
+        sc.add(("fromreals %d %d %s" % (sid, nre, " ".join(map(str, rs)))).strip(), op="fromreals", sid=sid, reals=rs)
+        sc.add("pddump", op="pddump")
     if r.chance(1, 2):
         sc.add("pdcross", op="pdcross")
         sc.add("pddump", op="pddump")
@@ -779,10 +874,28 @@ class PDSpec:
         self.edges = []      # (src, dst, rest-of-record string) in insertion order
 
     def index_of(self, sid):
+        """the vertex that points to the caller's state object `sid` (a decoupled vertex points to its own clone)"""
         for i, v in enumerate(self.verts):
             if v["sid"] == sid:
                 return i
         return None
+
+    def refresh(self, states):
+        """a coupled vertex shows what its state object holds now"""
+        for v in self.verts:
+            if v["sid"] is not None:
+                v["img"] = image_hex(states[v["sid"]][1])
+
+    def add(self, sid, tag, states):
+        idx = self.index_of(sid)
+        if idx is None:
+            self.verts.append({"sid": sid, "tag": tag, "img": image_hex(states[sid][1]), "start": False, "goal": False})
+            idx = len(self.verts) - 1
+        return idx
+
+    def remove(self, v):
+        del self.verts[v]
+        self.edges = [(a - (a > v), b - (b > v), r_) for a, b, r_ in self.edges if a != v and b != v]
 
 
 def oracle(sc, impl, rc, err):
@@ -915,6 +1028,11 @@ def oracle(sc, impl, rc, err):
             md = [join_or([str((i * 7 + j * 3) % 11) for j in range(i % 3)], ".") for i in range(len(imgs))]
             if f.get("n") != str(len(imgs)) or f.get("imgs") != join_or(imgs, ";") or f.get("md") != join_or(md, ";") or out.endswith(" ERR"):
                 fail("states-roundtrip", "GraphStateStorage store/load: %s" % out[:160])
+            elif f.get("rbm") != ",".join("%d/%d" % (k, k) for k in range(len(imgs) + 1)):
+                # a prefix that ends after k complete state records (k = all: just before the metadata block) must leave k states
+                # and k metadata entries
+                fail("metadata-inconsistent", "GraphStateStorage after loading the record prefixes holds states/metadata %s" % f.get("rbm"),
+                     call="StateStorageWithMetadata::loadMetadata", shape="record-prefix")
             else:
                 tr = x.get("trunc", "0/1/?").split("/")
                 inc = re.match(r"^(\d+)(?:/(\d+):(\d+)states/(\d+)metadata)?$", x.get("inconsistent", "0"))
@@ -950,10 +1068,7 @@ def oracle(sc, impl, rc, err):
             pd = PDSpec(meta["cdim"])
         elif op == "pdv":
             sid, tag, ty = int(t[1]), int(t[2]), t[3]
-            idx = pd.index_of(sid)
-            if idx is None:
-                pd.verts.append({"sid": sid, "tag": tag, "img": image_hex(states[sid][1]), "start": False, "goal": False})
-                idx = len(pd.verts) - 1
+            idx = pd.add(sid, tag, states)
             if ty == "s":
                 pd.verts[idx]["start"] = True
             if ty == "g":
@@ -988,10 +1103,57 @@ def oracle(sc, impl, rc, err):
             v = int(t[1])
             ok = v < len(pd.verts)
             if ok:
-                del pd.verts[v]
-                pd.edges = [(a - (a > v), b - (b > v), r_) for a, b, r_ in pd.edges if a != v and b != v]
+                pd.remove(v)
             if f.get("ok") != ("1" if ok else "0"):
                 fail("planner-data", "removeVertex returned %s" % f.get("ok"))
+        elif op in ("pdmarks", "pdtags", "pdidx", "pdrmvs"):
+            idx = pd.index_of(int(t[1]))
+            if op == "pdidx":
+                if f.get("idx") != ("none" if idx is None else str(idx)):
+                    fail("state-index-map", "vertexIndex(state %s) = %s, the vertex that points to it is %s" % (t[1], f.get("idx"), idx), call=op)
+                continue
+            if idx is not None:
+                if op == "pdmarks":
+                    pd.verts[idx]["start" if t[2] == "s" else "goal"] = True
+                elif op == "pdtags":
+                    pd.verts[idx]["tag"] = int(t[2])
+                else:
+                    pd.remove(idx)
+            if f.get("ok") != ("1" if idx is not None else "0"):
+                fail("state-index-map", "%s on state %s returned %s; that state %s" % (op, t[1], f.get("ok"), "is vertex %d" % idx if idx is not None else "is not a vertex"), call=op)
+        elif op == "pdes":
+            a = pd.add(int(t[1]), int(t[2]), states)
+            b = pd.add(int(t[3]), int(t[4]), states)
+            ok = not any(e[0] == a and e[1] == b for e in pd.edges)
+            if ok:
+                rest = [t[5]]
+                if pd.cdim is not None:
+                    rest += [t[6], b"".join(struct.pack("<Q", int(u)) for u in t[8:]).hex()]
+                pd.edges.append((a, b, rest))
+            if f.get("ok") != ("1" if ok else "0") or f.get("nv") != str(len(pd.verts)):
+                fail("state-index-map", "addEdge(v1, v2) on states %s, %s returned %s with %s vertices; expected %d with %d vertices (edge %d -> %d)"
+                     % (t[1], t[3], f.get("ok"), f.get("nv"), ok, len(pd.verts), a, b), call=op)
+        elif op == "pdrmes":
+            a, b = pd.index_of(int(t[1])), pd.index_of(int(t[2]))
+            ok = a is not None and b is not None and any(e[0] == a and e[1] == b for e in pd.edges)
+            if ok:
+                pd.edges = [e for e in pd.edges if not (e[0] == a and e[1] == b)]
+            if f.get("ok") != ("1" if ok else "0"):
+                fail("state-index-map", "removeEdge(v1, v2) on states %s, %s returned %s, expected %d" % (t[1], t[2], f.get("ok"), ok), call=op)
+        elif op == "pdclear":
+            pd = PDSpec(pd.cdim)
+        elif op == "pddecouple":
+            pd.refresh(states)
+            for v in pd.verts:
+                v["sid"] = None          # the vertex owns a clone now: no state object of the caller is this vertex any more
+        elif op == "pdextract":
+            pd.refresh(states)
+            want = join_or(["%s:%s" % (v["img"], join_or([str(e[1]) for e in pd.edges if e[0] == i], ".")) for i, v in enumerate(pd.verts)], ";")
+            if f.get("n") != str(len(pd.verts)) or f.get("X") != want:
+                fail("extract-state-storage", "extractStateStorage: per vertex (state image : out-neighbours) n=%s %s; the graph is n=%d %s"
+                     % (f.get("n"), f.get("X", "")[:150], len(pd.verts), want[:150]), call=op)
+            elif f.get("rt") != "same":
+                fail("extract-state-storage", "the extracted GraphStateStorage does not survive store/load: rt=%s" % f.get("rt"), call=op)
         elif op == "pdrme":
             a, b = int(t[1]), int(t[2])
             ok = any(e[0] == a and e[1] == b for e in pd.edges)
@@ -1002,6 +1164,7 @@ def oracle(sc, impl, rc, err):
             if op == "pdstore" and f.get("ok") != "1":
                 fail("graph-roundtrip", "store/load of a valid graph failed: %s" % full[:120])
                 continue
+            pd.refresh(states)
             problems = judge_graph(pd, f, last_dump if op == "pdstore" else None, loaded=(op == "pdstore"))
             for what, msg, rec in problems:
                 fail(what, ("loaded graph: " if op == "pdstore" else "in-memory graph: ") + msg, **rec)
@@ -1036,6 +1199,7 @@ def oracle(sc, impl, rc, err):
             if f.get("ok") != "1" or x.get("threw") == "1":
                 fail("reload-used-planner-data", "load() into a PlannerData that held another graph failed: %s" % full[:100], call="pdreload")
             else:
+                pd.refresh(states)
                 for what, msg, rec in judge_graph(pd, f, last_dump, loaded=True):
                     if what == "goal-marks-lost":      # the store side of it (F31): same as for pdstore
                         fail(what, "loaded graph: " + msg, **rec)
@@ -1166,13 +1330,18 @@ def run_one(ck, hbin, sc, leak_stacks):
         break
     else:
         raise RuntimeError("the harness could not be run (rc=%s): %s" % (rc, (err or "")[-300:]))
+    if not leak_stacks and "LeakSanitizer" in (err or ""):
+        # the sweep runs with the fast unwinder (6-7x cheaper: every malloc of ~60 000 truncated loads records a stack);
+        # a leak report is reproduced once with full stacks, which the oracle needs to say where the block was lost
+        ck.count("leak-rerun-with-full-stacks")
+        return run_one(ck, hbin, sc, True)
     model, rc2, err2 = ck.run_bin(ck.driver(DRIVER), sc.lines, timeout=120)
     if rc2 != 0:
         raise RuntimeError("model driver failed (rc=%s): %s" % (rc2, (err2 or "")[-500:]))
     return impl or [], rc, err or "", model or []
 
 
-def judge(ck, hbin, sc, tag, compare=True, leak_stacks=True, res=None):
+def judge(ck, hbin, sc, tag, compare=True, leak_stacks=False, res=None):
     impl, rc, err, model = res if res is not None else run_one(ck, hbin, sc, leak_stacks)
     ck.traces_validated += 1
     ck.count("scripts:" + tag)
@@ -1329,7 +1498,10 @@ def run(ck):
     ck.rule = ("scripts over random nested spaces (depth <= 3, zero-length components, wrappers): state scripts (serialize/"
                "deserialize/clone/copy/reals/copyStateData (both overloads, and getCommonSubspaces + copy) between related spaces incl. "
                "several shared components of equal dimension), StateStorage scripts and PlannerData scripts (a third without edges) "
-               "(geometric and control) each ending in store -> load -> corruption sweep; a script is non-trivial if it performs a "
+               "(geometric and control; half of them histories through the by-state API — addEdge(v1,v2), removeVertex(v), removeEdge(v1,v2), "
+               "markStartState, tagState, vertexIndex — with vertices added after removals, clear() and re-use, decoupleFromPlanner() in "
+               "mid-history, the caller's state objects changed while the graph points to them, extractStateStorage()) "
+               "each ending in store -> load -> corruption sweep; a script is non-trivial if it performs a "
                "partial copy or a storage round trip with its truncation sweep; distinct by script text")
     ck.trusted += ["harness/copy.cpp fills and dumps states with its own typed walk over the state tree; it identifies a "
                    "getValueAddressAtIndex pointer by comparing it with the addresses of that walk",
@@ -1374,13 +1546,16 @@ def run(ck):
         jobs.append(("state", gen_state_script(ck.rng.fork("state%d" % i))))
     for i in range(50 if quick else 300):
         jobs.append(("states-archive", gen_storage_script(ck.rng.fork("ss%d" % i))))
-    for i in range(100 if quick else 500):
-        jobs.append(("planner-data-archive", gen_pd_script(ck.rng.fork("pd%d" % i))))
+    for i in range(60 if quick else 300):
+        jobs.append(("planner-data-archive", gen_pd_script(ck.rng.fork("pd%d" % i), keyed=False)))
+    for i in range(70 if quick else 400):
+        # histories through the by-state API, clear()/re-use, decoupleFromPlanner(), aliased state objects, extractStateStorage()
+        jobs.append(("planner-data-keyed-history", gen_pd_script(ck.rng.fork("pdk%d" % i), keyed=True)))
     for i in range(1 if quick else 6):
         jobs.append(("states-archive-large", gen_storage_script(ck.rng.fork("ssbig%d" % i), big=True, quick=quick)))
         jobs.append(("planner-data-archive-large", gen_pd_script(ck.rng.fork("pdbig%d" % i), big=True, quick=quick)))
-    with concurrent.futures.ThreadPoolExecutor(max_workers=min(14, os.cpu_count() or 4)) as ex:
-        futs = [ex.submit(run_one, ck, hbin, sc, True) for _, sc in jobs]
+    with concurrent.futures.ThreadPoolExecutor(max_workers=min(6, os.cpu_count() or 4)) as ex:
+        futs = [ex.submit(run_one, ck, hbin, sc, False) for _, sc in jobs]
         results = [fu.result() for fu in futs]
     for (tag, sc), res in zip(jobs, results):
         if bad >= 4:
@@ -1435,10 +1610,15 @@ MANIFEST = {
             "compiled into the harness under ASan/UBSan/vptr/LSan. The open finding F31 and the repaired F29/F32 are kept as kernel-checked witnesses about the old code; the model "
             "follows the repaired code (wrapper = opaque leaf, F32; sorted goal list, F29) and keeps the pre-repair variant only as the "
             "detection path of a probe that turns a reverted repair into a VIOLATION.",
-    "covers": "modelled+proved: serialize/deserialize/serLen/copyState/cloneState, addrAtIndex, valueLocations(+repaired variant), reals round "
+    "covers": "modelled+proved (round 10): PlannerData's state->index map (vertexIndex/addVertex/addStartVertex/addGoalVertex/addEdge(v1,v2)/"
+              "removeVertex(v)/removeEdge(v1,v2)/markStartState/markGoalState/tagState/clear/decoupleFromPlanner: KBuilt histories round-trip, the map "
+              "stays exact, a decoupled or loaded graph is a copy), GraphStateStorage store/load with its metadata block (every record prefix is "
+              "reported and leaves one metadata entry per state; F108 witness about the old code), extractStateStorage (isomorphic for every "
+              "enumeration order of the pointer-keyed map); "
+              "modelled+proved: serialize/deserialize/serLen/copyState/cloneState, addrAtIndex, valueLocations(+repaired variant), reals round "
               "trip, csd/csdNames state and result code, commonSubspaces, signature shape, storeStates/loadStates, storeGraph/loadGraph, "
               "PlannerData add/mark/remove invariants, binary search; compared only: equalStates of copies, boost byte framing (enumerated), "
-              "substate map as printed, control-space images, GraphStateStorage metadata (driven + oracle, not modelled), duplicate-name spaces (model vs code only); sampled: the scripts (251 quick / 1321 thorough) and the truncation offsets of "
+              "substate map as printed, control-space images, the decoupled-control bookkeeping of control::PlannerData (who frees which clone: ASan/LSan only), duplicate-name spaces (model vs code only); sampled: the scripts (282 quick / 1522 thorough) and the truncation offsets of "
               "archives larger than the exhaustive cap",
     "note": "Trusted: Lean kernel, the three standard axioms, the hand-written model outside the scripts the correspondence explored, the "
             "harness (own typed state walk; global operator new/delete replaced by malloc/free wrappers so that an absurd allocation throws "
